@@ -52,6 +52,7 @@ FirstValue(items, m, default) == LET hit == {i \in DOMAIN items : items[i][1] = 
 VItems(text) == IF SecIndex(text, "V") = 0 THEN <<>> ELSE SectionItemsAlgo(text, SecIndex(text, "V"))
 WItems(text) == IF SecIndex(text, "W") = 0 THEN <<>> ELSE SectionItemsAlgo(text, SecIndex(text, "W"))
 WrapAlgo(text) == FirstValue(VItems(text), "WRAP", "NO")
+DlmAlgo(text)  == FirstValue(VItems(text), "DLM", "SPACE")
 NullAlgo(text) == FirstValue(WItems(text), "NULL", "none")
 
 \* ---- ~Other ------------------------------------------------------------------------------------------------------------
@@ -88,6 +89,8 @@ HasText(text) == \E i \in DOMAIN ALines(text) : ALines(text)[i].k = "data" /\ \E
 NumpyUsable(text, o) ==
     /\ WrapAlgo(text) # "YES" /\ o.null_policy = "strict"             \* otherwise the normal engine is selected outright
     /\ ~HasText(text)                                                 \* loose=False: text raises
+    \* genfromtxt splits on whitespace: with a comma delimiter 'x,' tokens raise unless every line holds a single value (TAB is fine)
+    /\ (DlmAlgo(text) = "COMMA" => \A i \in DOMAIN DataOf(ALines(text)) : Len(DataOf(ALines(text))[i].cells) = 1)
     /\ (ALast(text) \/ ~HasDeco(text))                                \* else max_rows over-counts and the next title is hit
     /\ DataOf(ALines(text)) # <<>>                                    \* an empty block gives a warning-only empty array (falls back)
 AlgoPath(text, o, engine) ==
